@@ -193,3 +193,69 @@ def boolean_families(tier: str, alias_heavy: bool = False) -> Dict[str, List[Any
                                    ('q', q1, 'v', d1, ('bin', 'and', ('not', inner), Q))]
     fam['nested-quantifiers'] = nested if thorough else nested[::2]
     return {k: uniq(v) for k, v in fam.items()}
+
+
+def slot_family() -> List[Any]:
+    """one tree per (node kind x child slot) with a current-message reference AND an @A reference in that slot"""
+    out = []
+    V = ('var', 'v')
+    M = ('f', 'm')  # message-typed field
+    MS = ('f', 'ms')  # array of messages
+    for ref, aref in ((X, AX), (('fa', M, 'x'), ('fa', ('fa', ('var', 'A'), 'm'), 'x')), (('idx', XS, L(0)), ('idx', AXS, L(0))),
+                      (('fa', ('idx', MS, L(0)), 'x'), ('fa', ('idx', ('fa', ('var', 'A'), 'ms'), L(0)), 'x'))):
+        for r in (ref, aref, ('bin', '+', ref, aref)):
+            out += [
+                ('bin', '<', r, L(1)), ('bin', '<', L(1), r), ('bin', '=', ('neg', r), Y),
+                ('bin', 'in', r, ('set', L(1), L(2))), ('bin', 'in', Y, ('set', r, L(2))), ('bin', 'in', Y, ('set', L(2), r)),
+                ('bin', 'in', Y, ('range', r, L(5), False, False)), ('bin', 'in', Y, ('range', L(0), r, True, True)),
+                ('bin', '<', ('idx', YS, r), L(1)), ('bin', '<', ('idx', ('fa', ('var', 'A'), 'ys'), r), L(1)),
+                ('bin', '<', ('call', 'abs', r), L(3)), ('bin', '<', ('call', 'max', r, Y), L(3)), ('bin', '<', ('call', 'max', Y, L(1), r), L(3)),
+                ('bin', '<', ('call', 'sum', ('set', r, Y)), L(3)),
+                ('q', 'forall', 'v', ('set', r, L(1)), ('bin', '<', V, L(3))), ('q', 'exists', 'v', ('range', L(0), r, False, False), ('bin', '<', V, L(3))),
+                ('q', 'forall', 'v', YS, ('bin', '<', V, r)), ('q', 'exists', 'v', YS, ('bin', 'and', ('bin', '<', V, L(1)), ('bin', '>', r, L(0)))),
+                ('not', ('bin', '<', r, L(1))), ('bin', 'implies', ('bin', '<', r, L(1)), P), ('bin', 'iff', P, ('bin', '<', r, L(1))),
+            ]
+    for dom, adom in ((XS, AXS),):
+        out += [('q', 'forall', 'v', dom, ('bin', '<', V, L(1))), ('q', 'forall', 'v', adom, ('bin', '<', V, L(1))),
+                ('bin', 'in', Y, dom), ('bin', 'in', Y, adom), ('bin', '<', ('call', 'len', dom), L(2)), ('bin', '<', ('call', 'len', adom), L(2)),
+                ('bin', '<', ('call', 'sum', adom), L(2)), ('bin', '<', ('call', 'max', dom), L(2))]
+    return uniq(out)
+
+
+def call_shapes() -> List[Any]:
+    """every built-in function with every admissible argument shape: literal, reference, expression, set, array,
+    range with literal / non-literal bounds, message (roll/pitch/yaw), variadic"""
+    out = []
+    M = ('f', 'm')
+    one_num = ('abs', 'sqrt', 'ceil', 'floor', 'sin', 'cos', 'tan', 'asin', 'acos', 'atan', 'deg', 'rad')
+    prim = ('bool', 'int', 'float', 'str')
+    nums = [L(0), L(1), L(-1), L(2), L(10), L(0.5), L(-2.5), X, AX, ('idx', XS, L(0)), ('bin', '+', X, L(1)), ('bin', '*', L(2), L(3)), ('neg', X),
+            ('const', 'PI'), ('const', 'E'), ('const', 'INF'), ('const', 'NAN')]
+    for f in one_num:
+        for a in nums:
+            out.append(('bin', '<', ('call', f, a), Y))
+    for f in prim:
+        for a in nums + [P, L(True), L(False), ('f', 's'), ('str', 'a'), ('str', ''), ('str', '12')]:
+            c = ('call', f, a)
+            out.append(c if f == 'bool' else ('bin', '=', c, ('f', 's')) if f == 'str' else ('bin', '<', c, Y))
+    for f in ('log', 'atan2'):
+        for a in nums[:9]:
+            for b in nums[:9]:
+                out.append(('bin', '<', ('call', f, a, b), Y))
+    comps = [XS, AXS, ('f', 'ys'), ('set', L(1)), ('set', L(1), L(2)), ('set', X, L(1), L(2)), ('set', X, Y), ('set', L(4), L(6)), ('set', L(1.5), L(2)),
+             ('set', ('bin', '+', L(1), L(1)), L(2))]
+    for a, b in ((L(1), L(3)), (L(3), L(1)), (L(2), L(2)), (L(1), X), (X, L(3)), (X, Y), (L(0.5), L(2.5)), (('bin', '+', L(1), L(1)), L(4)), (L(-2), L(2))):
+        for fl in ((False, False), (True, False), (False, True), (True, True)):
+            comps.append(('range', a, b) + fl)
+    for f in ('len', 'sum', 'prod', 'max', 'min', 'gcd'):
+        for c in comps:
+            out.append(('bin', '<', ('call', f, c), Y))
+    for f in ('max', 'min', 'gcd'):
+        for args in ((X, Y), (L(4), L(6)), (X, L(4), L(6)), (L(4), L(6), L(3)), (L(4), X, L(6), Y), (L(1.5), L(2)), (L(4), L(6), L(8), L(3))):
+            out.append(('bin', '<', ('call', f) + args, Y))
+    for f in ('roll', 'pitch', 'yaw'):
+        out.append(('bin', '<', ('call', f, M), Y))
+        out.append(('bin', '<', ('call', f, ('fa', ('var', 'A'), 'm')), Y))
+        out.append(('bin', '<', ('call', f, X, Y, L(0), L(1)), Y))
+        out.append(('bin', '<', ('call', f, L(0), L(0), L(0), L(1)), Y))
+    return uniq(out)
